@@ -327,6 +327,13 @@ impl<'a> HeadersIter<'a> {
     { unimplemented!() }
 }
 
+impl AsRef<Headers> for ResponseAsync {
+    // ASSUMED (impl AsRef<Headers> for ResponseAsync: the response's header map)
+    #[verifier::external_body]
+    fn as_ref(&self) -> (r: &Headers)
+        ensures *r == self.headers_v(),
+    { unimplemented!() }
+}
 /// a body declared empty reads as empty (http-types limits reads to the declared length) - ASSUMED
 pub broadcast axiom fn empty_body_reads_empty(r: Request)
     ensures r.body_len() == Some(0nat) ==> #[trigger] r.body_content() == Ok::<Seq<u8>, HttpTypesError>(Seq::<u8>::empty());
@@ -394,11 +401,7 @@ impl ResponseAsync {
     pub fn version(&self) -> (r: Option<Version>)
         ensures r == self.version_s(),
     { unimplemented!() }
-    // ASSUMED (impl AsRef<Headers> for ResponseAsync)
-    #[verifier::external_body]
-    pub fn as_ref(&self) -> (r: &Headers)
-        ensures *r == self.headers_v(),
-    { unimplemented!() }
+
     #[verifier::external_body]
     pub fn status(&self) -> (r: StatusCode)
         ensures r == self.status_s(),
@@ -542,7 +545,7 @@ impl<'a> Next<'a> {
             self.next_middleware@.len() == 0 ==> final(w).endpoint_calls == old(w).endpoint_calls.push(sent_of(req)) && final(w).handled == old(w).handled, // [C16/Next::run/an-empty-chain-reaches-the-shell-exactly-once-with-the-request-unchanged]
             old(w).endpoint_calls.is_prefix_of(final(w).endpoint_calls),
 //@rule X19.mut-self * s/\bself\b/this/
-//@rule X6.world 1 s/current\.handle\(/current.handle(Tracked(w), /
+//@rule X6.world 1 s/\b(\w+)\.handle\(/\1.handle(Tracked(w), /
 //@rule X6.world 1 s/\(this\.endpoint\)\(/this.endpoint.call(Tracked(w), /
 //@entry
         let mut this = self;
@@ -563,7 +566,7 @@ impl Next<'_> {
 
 // ------------------------------------------------------------------ the redirect middleware
 //@extract id=REDIRECT_CODES file=crux_http/src/middleware/redirect.rs item="const REDIRECT_CODES"
-//@rule X1.const-contract 1 s~const REDIRECT_CODES: &\[StatusCode\] = (&\[[^;]*\]);~exec const REDIRECT_CODES: &'static [StatusCode]\n    ensures forall|s: StatusCode| REDIRECT_CODES@.contains(s) <==> is_redirect(s), // [C16/REDIRECT_CODES/exactly-the-five-documented-redirect-statuses]\n{ let c: &'static [StatusCode] = \1; proof { redirect_codes_lemma(c@); } c }~
+//@rule X1.const-contract 1 s~const REDIRECT_CODES: &(?:'static )?\[StatusCode\] = (&\[[^;]*\]);~exec const REDIRECT_CODES: &'static [StatusCode]\n    ensures forall|s: StatusCode| REDIRECT_CODES@.contains(s) <==> is_redirect(s), // [C16/REDIRECT_CODES/exactly-the-five-documented-redirect-statuses]\n{ let c: &'static [StatusCode] = \1; proof { redirect_codes_lemma(c@); } c }~
 //@end
 
 proof fn redirect_codes_lemma(c: Seq<StatusCode>)
@@ -684,20 +687,21 @@ pub open spec fn header_pairs(h: Seq<HttpHeader>) -> Seq<(Seq<char>, Seq<char>)>
 //@extract id=From<HttpResponse> file=crux_http/src/protocol.rs within="impl From<HttpResponse> for crate::ResponseAsync" item="fn from" props=C15
 //@expect fn from(effect_response: HttpResponse) -> Self
 //@sig fn response_from(effect_response: HttpResponse) -> (r: ResponseAsync)
+//@bind RES let mut (\w+) = http_types::Response::new
 //@contract
     ensures
         r.inner().code() == effect_response.status, // [C15/From<HttpResponse>/the-same-status]
         r.inner().body_s() == effect_response.body@, // [C15/From<HttpResponse>/the-same-body-bytes]
         r.inner().appended() == header_pairs(effect_response.headers@), // [C15/From<HttpResponse>/every-header-value-in-the-order-given]
-//@rule X7.self 1 s/crate::ResponseAsync::new\(/ResponseAsync::new(/
+//@rule X7.self 1 s/(?:crate::ResponseAsync|Self)::new\(/ResponseAsync::new(/
 //@rule X1.for-iterator 1 s/for (\w+) in effect_response\.headers \{/for \1 in it: effect_response.headers {/
 //@rule X1.callsite-label 1 s~(http_types::Response::new\(effect_response\.status\);)~\1 // [C15/From<HttpResponse>/a-status-code-http-types-has-no-name-for-does-not-panic]~
 //@loops 1
 //@loop 1
         invariant
-            res.code() == effect_response.status,
-            res.body_s() == effect_response.body@,
-            res.appended() == header_pairs(effect_response.headers@.take(it.index@ as int)),
+            $RES.code() == effect_response.status,
+            $RES.body_s() == effect_response.body@,
+            $RES.appended() == header_pairs(effect_response.headers@.take(it.index@ as int)),
 //@end
 
 //@extract id=Response file=crux_http/src/response/response.rs item="struct Response"
@@ -743,14 +747,14 @@ pub open spec fn header_pairs(h: Seq<HttpHeader>) -> Seq<(Seq<char>, Seq<char>)>
 
 // ------------------------------------------------------------------ the end of the chain: one trip to the shell
 //@extract id=Client::send::endpoint file=crux_http/src/client.rs within="impl Client" item="fn send" closure="Next::new\(&\w+, &" props=C14+C15+C16
-//@expect |req, client|
-//@sig fn endpoint(Tracked(w): Tracked<&mut HW>, req: Request, client: Client) -> (r: Result<ResponseAsync>)
+//@expect |$x, $y|
+//@sig fn endpoint(Tracked(w): Tracked<&mut HW>, $x: Request, $y: Client) -> (r: Result<ResponseAsync>)
 //@contract
     requires
-        req.body_content() is Ok, // (a body that cannot be read panics here: `expect("Failed to create request")` - stated, not decided)
+        $x.body_content() is Ok, // (a body that cannot be read panics here: `expect("Failed to create request")` - stated, not decided)
     ensures
         final(w).shell.len() == old(w).shell.len() + 1 && old(w).shell.is_prefix_of(final(w).shell), // [C14+C16/endpoint/the-shell-is-reached-exactly-once-per-invocation]
-        final(w).shell.last().method@ == method_text(req.method_s()) && final(w).shell.last().url@ == url_text(req.url_s()) && final(w).shell.last().body@ == req.body_content()->Ok_0 && header_pairs(final(w).shell.last().headers@) == req.header_pairs(), // [C14/endpoint/what-reaches-the-shell-is-exactly-the-request-it-was-given]
+        final(w).shell.last().method@ == method_text($x.method_s()) && final(w).shell.last().url@ == url_text($x.url_s()) && final(w).shell.last().body@ == $x.body_content()->Ok_0 && header_pairs(final(w).shell.last().headers@) == $x.header_pairs(), // [C14/endpoint/what-reaches-the-shell-is-exactly-the-request-it-was-given]
         final(w).shell_answers.len() == old(w).shell_answers.len() + 1,
         final(w).shell_answers.last() matches HttpResult::Err(e) ==> r == Err::<ResponseAsync, HttpError>(e), // [C15/endpoint/an-error-reported-by-the-shell-is-passed-through-unchanged]
         final(w).shell_answers.last() matches HttpResult::Ok(res) ==> (r matches Ok(a) && a.inner().code() == res.status && a.inner().body_s() == res.body@ && a.inner().appended() == header_pairs(res.headers@)), // [C15/endpoint/a-response-from-the-shell-becomes-a-response-with-the-same-status-headers-and-body]
